@@ -2,7 +2,7 @@
 (* Executable entry point of the C09 correspondence: exact rational instance of the Danielsson /
    sensor-row / weight-matrix models.  Coordinates are integers over a per-case common denominator. *)
 From Coq Require Import ZArith QArith List Bool.
-From OM Require Import Base.Lists Base.Wire Base.Ops Geom.V3Q Geom.Danielsson Geom.SensorsModel.
+From OM Require Import Base.Lists Base.Wire Base.Ops Geom.V3Q Geom.Danielsson Geom.SensorsModel Geom.ClosestOracleModel.
 Import ListNotations.
 Local Open Scope Z_scope.
 
@@ -32,6 +32,13 @@ Definition run_c09 (w : wire) : wire :=
            match dist_point_triangle Qops p T zeroV with
            | DOk d2 al ins => [0; if ins then 1 else 0] ++ outV al ++ outQ d2
            | DErr c => [zn c]
+           end)
+  | 9 :: den :: w' =>       (* the independent certifying closest-point oracle on a triangle *)
+      run_dec (do p <- getV den; do a <- getV den; do b <- getV den; do c <- getV den; ret (p, (a, b, c))) w'
+        (fun '(p, T) =>
+           match closest_oracle Qops p T with
+           | Some al => [0] ++ outV al ++ outQ (vnorm2 Qops (vsub Qops p (recon Qops T al)))
+           | None => [7]
            end)
   | 2 :: den :: w' =>
       run_dec (do p <- getV den; do nv <- getN; do vs <- getMany nv (getV den); do ms <- getMeshes vs;
